@@ -94,3 +94,11 @@ Theorem C08_operation_code_facts :
   update_writes_before_interrupt = true.
 Proof. repeat split; reflexivity. Qed.
 Print Assumptions C08_operation_code_facts.
+
+(** the end of the stream reaches the receiver only through the chain, behind the delayed data: the
+    reader goroutine closes the chain's input and nothing else, and waits for nothing (regenerated
+    from ToxicLink.read); in the model a stage closes its output only after its input was closed and
+    drained (closure order, C01) *)
+Theorem C08_end_of_stream_travels_through_the_chain : reader_closes_only_its_input = true.
+Proof. reflexivity. Qed.
+Print Assumptions C08_end_of_stream_travels_through_the_chain.
